@@ -640,7 +640,12 @@ func (e *Exec) concat(a, b Str) Str {
 		}
 	}
 	fn := FnCopy{Old: strView(a).normalized(), DOff: a.Len, Src: b.Fn, SOff: b.Off, N: b.Len}
-	return Str{Fn: fn, Off: c0, Len: smt.Add(a.Len, b.Len)}
+	res := Str{Fn: fn, Off: c0, Len: smt.Add(a.Len, b.Len)}
+	if e.path.concats == nil {
+		e.path.concats = map[view][]view{}
+	}
+	e.path.concats[strView(res)] = append(append([]view{}, e.partsOf(strView(a))...), e.partsOf(strView(b))...)
+	return res
 }
 
 func (e *Exec) convert(v Value, from, to types.Type) Value {
